@@ -1071,6 +1071,536 @@ theorem get_returns_added_value (H : Bytes → Bytes) (v : Variant) (m t : Int) 
 
 
 
+
+/-! ## the item codec of Save / load -/
+
+/-- what the Go types guarantee about an entry (int32 value, uint32 access time) plus a string shorter than 2^24 bytes
+    (anything longer cannot be an item of a chunk anyway) -/
+structure WFItem (it : Bytes × Entry) : Prop where
+  klen : it.1.length < 16777216
+  vlo : -2147483648 ≤ it.2.val
+  vhi : it.2.val < 2147483648
+  ts32 : it.2.ts < 4294967296
+
+theorem readU32_le4 (n : Nat) (rest : Bytes) (h : n < 4294967296) : readU32 (le 4 n ++ rest) = .ok (n, rest) := by
+  have h4 : (le 4 n).length = 4 := le_length _ _
+  unfold readU32
+  have : ¬ ((le 4 n ++ rest).length < 4) := by simp [h4]
+  simp only [this, if_false]
+  rw [List.take_left' h4, List.drop_left' h4, unle_le 4 n (by omega)]
+
+theorem int_u32_roundtrip (v : Int) (h1 : -2147483648 ≤ v) (h2 : v < 2147483648) : intOfU32 (u32OfInt v) = v := by
+  unfold intOfU32 u32OfInt
+  by_cases hv : 0 ≤ v
+  · have : v % 4294967296 = v := Int.emod_eq_of_lt hv (by omega)
+    rw [this]
+    have h3 : ¬ (v.toNat ≥ 2147483648) := by omega
+    simp only [h3, if_false]; omega
+  · have : v % 4294967296 = v + 4294967296 := by omega
+    rw [this]
+    have h3 : (v + 4294967296).toNat ≥ 2147483648 := by omega
+    simp only [h3, if_true]; omega
+
+theorem paddingLen_lt (l : Nat) : paddingLen l < 4 := by unfold paddingLen; omega
+
+theorem readStringTail_ok (k rest : Bytes) (p : Nat) :
+    readStringTail (k ++ (List.replicate (paddingLen p) 0 ++ rest)) k.length p = .ok (k, rest) := by
+  unfold readStringTail
+  have h1 : ¬ ((k ++ (List.replicate (paddingLen p) 0 ++ rest)).length < k.length) := by simp
+  have h2 : ¬ ((k ++ (List.replicate (paddingLen p) 0 ++ rest)).length < k.length + paddingLen p) := by simp
+  have h3 : ((k ++ (List.replicate (paddingLen p) (0 : UInt8) ++ rest)).drop k.length).take (paddingLen p)
+      = List.replicate (paddingLen p) 0 := by
+    rw [List.drop_left' rfl]; exact List.take_left' (by simp)
+  have h4 : (List.replicate (paddingLen p) (0 : UInt8)).any (· != 0) = false := by
+    simp
+  simp only [h1, h2, if_false, h3, h4, Bool.false_eq_true]
+  rw [List.take_left' rfl]
+  have : k ++ (List.replicate (paddingLen p) 0 ++ rest) = (k ++ List.replicate (paddingLen p) 0) ++ rest := by simp
+  rw [this, List.drop_left' (by simp)]
+
+theorem readString_tlString (k rest : Bytes) (hk : k.length < 16777216) :
+    readString (tlString k ++ rest) = .ok (k, rest) := by
+  unfold tlString
+  by_cases h1 : k.length ≤ 253
+  · simp only [h1, if_true, List.cons_append, List.append_assoc]
+    unfold readString
+    have : (UInt8.ofNat k.length).toNat = k.length := by simp [UInt8.toNat_ofNat']; omega
+    simp only [this, h1, if_true]
+    exact readStringTail_ok k rest (k.length + 1)
+  · have h2 : k.length ≤ 16777215 := by omega
+    simp only [h1, h2, if_false, if_true, List.cons_append, List.append_assoc]
+    unfold readString
+    have e254 : (254 : UInt8).toNat = 254 := rfl
+    simp only [e254, show ¬ (254 ≤ 253) by omega, if_false, if_true]
+    unfold readLongString
+    have h3l : (le 3 k.length).length = 3 := le_length _ _
+    have hl : ¬ (((254 : UInt8) :: (le 3 k.length ++ (k ++ (List.replicate (paddingLen k.length) 0 ++ rest)))).length < 1 + 3) := by
+      simp [h3l]
+    have hu : unle ((((254 : UInt8) :: (le 3 k.length ++ (k ++ (List.replicate (paddingLen k.length) 0 ++ rest)))).drop 1).take 3) = k.length := by
+      simp only [List.drop_succ_cons, List.drop_zero]
+      rw [List.take_left' h3l, unle_le 3 _ (by omega)]
+    simp only [hl, if_false, hu, h1]
+    have hd : ((254 : UInt8) :: (le 3 k.length ++ (k ++ (List.replicate (paddingLen k.length) 0 ++ rest)))).drop (1 + 3)
+        = k ++ (List.replicate (paddingLen k.length) 0 ++ rest) := by
+      rw [show 1 + 3 = 3 + 1 by rfl, List.drop_succ_cons, List.drop_left' h3l]
+    rw [hd]
+    exact readStringTail_ok k rest k.length
+
+/-- decode ∘ encode = id for one element -/
+theorem readItem_encItem (it : Bytes × Entry) (rest : Bytes) (h : WFItem it) :
+    readItem (encItem it ++ rest) = .ok (it, rest) := by
+  obtain ⟨k, e⟩ := it
+  unfold readItem encItem
+  simp only [List.append_assoc]
+  rw [readString_tlString k _ h.klen]
+  simp only
+  rw [readU32_le4 _ _ (by unfold u32OfInt; have := h.vlo; have := h.vhi; omega)]
+  simp only
+  rw [readU32_le4 _ _ h.ts32]
+  simp only [int_u32_roundtrip e.val h.vlo h.vhi]
+
+
+/-! ## load = decode the chunks the reader returns -/
+
+/-- the body of one chunk: the encodings of a group of elements -/
+def encGroup (g : Cache) : Bytes := (g.map encItem).flatten
+
+theorem loadItems_nil (s : St) : loadItems s [] = (s, none) := by
+  rw [loadItems]; simp
+
+theorem loadItems_ok {s : St} {body rest : Bytes} {it : Bytes × Entry} (hne : body.isEmpty = false)
+    (h : readItem body = .ok (it, rest)) : loadItems s body = loadItems (loadInsert s it) rest := by
+  rw [loadItems]
+  simp only [hne, Bool.false_eq_true, if_false]
+  split
+  · rename_i h'; rw [h] at h'; cases h'
+  · rename_i h'; rw [h] at h'; cases h'; rfl
+
+theorem encItem_ne_nil (it : Bytes × Entry) : (encItem it).isEmpty = false := by
+  have : (encItem it).length ≥ 8 := by simp [encItem, le_length]
+  cases h : encItem it with
+  | nil => rw [h] at this; simp at this
+  | cons a l => rfl
+
+theorem loadItems_encGroup (s : St) (g : Cache) (hwf : ∀ it ∈ g, WFItem it) :
+    loadItems s (encGroup g) = (g.foldl loadInsert s, none) := by
+  induction g generalizing s with
+  | nil => simp [encGroup, loadItems_nil]
+  | cons it g ih =>
+    have e : encGroup (it :: g) = encItem it ++ encGroup g := by simp [encGroup]
+    have hne : (encGroup (it :: g)).isEmpty = false := by
+      rw [e]
+      have := encItem_ne_nil it
+      cases h : encItem it with
+      | nil => rw [h] at this; simp at this
+      | cons a l => rfl
+    rw [loadItems_ok hne (by rw [e]; exact readItem_encItem it _ (hwf it (by simp)))]
+    rw [ih _ (fun x hx => hwf x (List.mem_cons_of_mem _ hx))]
+    rfl
+
+/-- `load` as a function of what the chunk reader returns -/
+def loadChunks (s : St) : List Bytes → Option Err → St × Option LoadErr
+  | [], e => (s, e.map .chunk)
+  | c :: cs, e =>
+    if c.isEmpty then (s, none)
+    else if (loadItems s c).2.isSome then loadItems s c
+    else loadChunks (loadItems s c).1 cs e
+
+theorem readAll_eof {H : Bytes → Bytes} {magic : Nat} {prev rest : Bytes}
+    (h : readNext H magic prev rest = .eof) : readAll H magic prev rest = ([], none) := by
+  rw [readNext_eof h]; exact readAll_nil H magic prev
+
+/-- the loader sees the file only through the chunk reader: every statement about `readAll` (round trip, truncation,
+    corruption) transfers to `load` -/
+theorem loadRest_eq_loadChunks (H : Bytes → Bytes) (s : St) (prev rest : Bytes) :
+    loadRest H s prev rest
+      = loadChunks s (readAll H magicMappings prev rest).1 (readAll H magicMappings prev rest).2 := by
+  fun_induction loadRest H s prev rest with
+  | case1 s prev rest hr => rw [readAll_eof hr]; rfl
+  | case2 s prev rest e hr => rw [readAll_err hr]; rfl
+  | case3 s prev rest body stored rest' hr hb => rw [readAll_chunk hr]; simp [loadChunks, hb]
+  | case4 s prev rest body stored rest' hr hb r hsome =>
+    rw [readAll_chunk hr]
+    have hb' : body.isEmpty = false := by simpa using hb
+    simp only [loadChunks, hb', Bool.false_eq_true, if_false]
+    simp only [r] at hsome
+    simp [hsome, r]
+  | case5 s prev rest body stored rest' hr hb r hnone ih =>
+    rw [readAll_chunk hr]
+    have hb' : body.isEmpty = false := by simpa using hb
+    simp only [loadChunks, hb', Bool.false_eq_true, if_false]
+    have hn : (loadItems s body).2.isSome = false := by simpa [r] using hnone
+    simp only [hn, Bool.false_eq_true, if_false]
+    exact ih
+
+theorem encGroup_ne_nil {g : Cache} (h : g ≠ []) : (encGroup g).isEmpty = false := by
+  cases g with
+  | nil => exact absurd rfl h
+  | cons it g =>
+    have e : encGroup (it :: g) = encItem it ++ encGroup g := by simp [encGroup]
+    rw [e]
+    have := encItem_ne_nil it
+    cases h : encItem it with
+    | nil => rw [h] at this; simp at this
+    | cons a l => rfl
+
+theorem loadChunks_groups (s : St) (gs : List Cache) (hne : ∀ g ∈ gs, g ≠ []) (hwf : ∀ g ∈ gs, ∀ it ∈ g, WFItem it)
+    (e : Option Err) : loadChunks s (gs.map encGroup) e = (gs.flatten.foldl loadInsert s, e.map .chunk) := by
+  induction gs generalizing s with
+  | nil => rfl
+  | cons g gs ih =>
+    simp only [List.map_cons, loadChunks, encGroup_ne_nil (hne g (by simp)), Bool.false_eq_true, if_false]
+    rw [loadItems_encGroup s g (hwf g (by simp))]
+    simp only [Option.isSome_none, Bool.false_eq_true, if_false]
+    rw [ih _ (fun x hx => hne x (List.mem_cons_of_mem _ hx)) (fun x hx => hwf x (List.mem_cons_of_mem _ hx))]
+    simp [List.foldl_append]
+
+/-! ## reload -/
+
+theorem mappings_params {H : Bytes → Bytes} (hH : ∀ x, (H x).length = 16) : Params H magicMappings :=
+  ⟨hH, by decide⟩
+
+/-- a saved file: the chunk bodies are the encodings of non-empty groups of well-formed elements -/
+structure SavedAs (H : Bytes → Bytes) (file : Bytes) (gs : List Cache) : Prop where
+  hlen : ∀ x, (H x).length = 16
+  file_eq : file = encodeAll H magicMappings zeroHash (gs.map encGroup)
+  nonempty : ∀ g ∈ gs, g ≠ []
+  wf : ∀ g ∈ gs, ∀ it ∈ g, WFItem it
+  small : ∀ g ∈ gs, (encGroup g).length ≤ chunkSize
+
+/-- the state `LoadMappingsCacheSlice` starts from -/
+def fresh (file : Bytes) (m : Int) : St := { maxSize := m, store := Chunked.new file }
+
+theorem loadNew_eq (H : Bytes → Bytes) (file : Bytes) (m : Int) :
+    loadNew H file m = loadChunks (fresh file m) (readAll H magicMappings zeroHash file).1 (readAll H magicMappings zeroHash file).2 :=
+  loadRest_eq_loadChunks H _ _ _
+
+/-- C21 (reload after truncation): a saved mapping file cut at ANY offset loads exactly the elements of its first k
+    chunks — whole elements only, nothing damaged, nothing invented. -/
+theorem load_truncated {H : Bytes → Bytes} {file : Bytes} {gs : List Cache} (hs : SavedAs H file gs) (n : Nat) (m : Int) :
+    ∃ k, k ≤ gs.length ∧
+      (loadNew H (file.take n) m).1 = (gs.take k).flatten.foldl loadInsert (fresh (file.take n) m) ∧
+      ((loadNew H (file.take n) m).2 = none → file.take n = encodeAll H magicMappings zeroHash ((gs.take k).map encGroup)) := by
+  have P := mappings_params hs.hlen
+  have hb : ∀ b ∈ gs.map encGroup, b.length ≤ chunkSize := by
+    intro b hb; obtain ⟨g, hg, rfl⟩ := List.mem_map.mp hb; exact hs.small g hg
+  obtain ⟨k, hk, h1, h2⟩ := truncated_gives_prefix P (gs.map encGroup) hb zeroHash n
+  rw [← hs.file_eq] at h1 h2
+  rw [← List.map_take] at h1 h2
+  refine ⟨k, by simpa using hk, ?_, ?_⟩
+  · rw [loadNew_eq, h1]
+    rw [loadChunks_groups _ _ (fun g hg => hs.nonempty g (List.mem_of_mem_take hg)) (fun g hg => hs.wf g (List.mem_of_mem_take hg))]
+  · rw [loadNew_eq, h1]
+    rw [loadChunks_groups _ _ (fun g hg => hs.nonempty g (List.mem_of_mem_take hg)) (fun g hg => hs.wf g (List.mem_of_mem_take hg))]
+    intro he
+    apply h2
+    cases hr : (readAll H magicMappings zeroHash (List.take n file)).2 with
+    | none => rfl
+    | some e => rw [hr] at he; simp at he
+
+theorem good_loadInsert {Q : Bytes → Int → Prop} {s : St} (it : Bytes × Entry) (h : AllGood Q s) (hq : Q it.1 it.2.val) :
+    AllGood Q (loadInsert s it) := by
+  unfold loadInsert
+  split
+  · exact h
+  · intro p hp
+    rcases mem_put hp with hp | hp
+    · subst hp; exact hq
+    · exact h p hp
+
+theorem good_foldl_loadInsert {Q : Bytes → Int → Prop} (items : Cache) (s : St) (h : AllGood Q s)
+    (hq : ∀ it ∈ items, Q it.1 it.2.val) : AllGood Q (items.foldl loadInsert s) := by
+  induction items generalizing s with
+  | nil => exact h
+  | cons it items ih =>
+    exact ih _ (good_loadInsert it h (hq it (by simp))) (fun x hx => hq x (List.mem_cons_of_mem _ hx))
+
+/-- discharges `ReloadsGood` for every truncation of a saved file whose elements satisfy `Q` -/
+theorem reload_truncated_good {Q : Bytes → Int → Prop} {H : Bytes → Bytes} {file : Bytes} {gs : List Cache}
+    (hs : SavedAs H file gs) (hq : ∀ g ∈ gs, ∀ it ∈ g, Q it.1 it.2.val) (n : Nat) (m : Int) :
+    AllGood Q (loadNew H (file.take n) m).1 := by
+  obtain ⟨k, _, h1, _⟩ := load_truncated hs n m
+  rw [h1]
+  apply good_foldl_loadInsert
+  · intro p hp; simp [fresh] at hp
+  · intro it hit
+    obtain ⟨g, hg, hig⟩ := List.mem_flatten.mp hit
+    exact hq g (List.mem_of_mem_take hg) it hig
+
+theorem put_absent_eq {c : Cache} {k : Bytes} (e : Entry) (h : find c k = none) : put c k e = c ++ [(k, e)] := by
+  induction c with
+  | nil => rfl
+  | cons q c ih =>
+    obtain ⟨k', e'⟩ := q
+    by_cases hk : k' = k
+    · simp [find, hk] at h
+    · simp only [find, hk, if_false] at h
+      simp [put, hk, ih h]
+
+theorem foldl_loadInsert_nodup (items : Cache) (s : St) (hn : (keys s.cache ++ keys items).Nodup) :
+    (items.foldl loadInsert s).cache = s.cache ++ items := by
+  induction items generalizing s with
+  | nil => simp
+  | cons it items ih =>
+    have hk : find s.cache it.1 = none := by
+      apply find_none_iff.mpr
+      intro hmem
+      have := List.nodup_append.mp hn
+      exact this.2.2 _ hmem _ (by simp [keys]) rfl
+    have hp : present s it.1 = false := present_false_iff.mpr hk
+    have e1 : (loadInsert s it).cache = s.cache ++ [it] := by
+      simp only [loadInsert, hp, Bool.false_eq_true, if_false]
+      exact put_absent_eq it.2 hk
+    simp only [List.foldl_cons]
+    rw [ih (loadInsert s it) (by rw [e1]; simpa [keys, List.append_assoc] using hn), e1]
+    simp
+
+theorem totals_perm {a b : Cache} (h : a.Perm b) : totalSize a = totalSize b ∧ totalTS a = totalTS b := by
+  induction h with
+  | nil => exact ⟨rfl, rfl⟩
+  | cons x _ ih => simp only [totalSize, totalTS, List.map_cons, List.sum_cons] at ih ⊢; constructor <;> omega
+  | swap x y l => simp only [totalSize, totalTS, List.map_cons, List.sum_cons]; constructor <;> omega
+  | trans _ _ ih1 ih2 => exact ⟨ih1.1.trans ih2.1, ih1.2.trans ih2.2⟩
+
+/-- C21 (reload, same contents): if the file holds the elements of the cache in some order (`order` is a permutation of
+    the map — Go map order or the deterministic order), split into chunks in any way, then a restart loads a cache with
+    exactly the same string → (value, access time) mapping and the same `sumSize` / `sumTS`. -/
+theorem reload_same_contents {H : Bytes → Bytes} {file : Bytes} {gs : List Cache} (s : St) (hex : Exact s)
+    (hs : SavedAs H file gs) (hperm : gs.flatten.Perm s.cache) (m : Int) :
+    (loadNew H file m).2 = none ∧
+    (∀ k, find (loadNew H file m).1.cache k = find s.cache k) ∧
+    (loadNew H file m).1.sumSize = s.sumSize ∧ (loadNew H file m).1.sumTS = s.sumTS := by
+  have P := mappings_params hs.hlen
+  have hb : ∀ b ∈ gs.map encGroup, b.length ≤ chunkSize := by
+    intro b hb; obtain ⟨g, hg, rfl⟩ := List.mem_map.mp hb; exact hs.small g hg
+  have hrt := read_write_roundtrip P (gs.map encGroup) hb
+  rw [← hs.file_eq] at hrt
+  have hload : loadNew H file m = (gs.flatten.foldl loadInsert (fresh file m), none) := by
+    rw [loadNew_eq, hrt, loadChunks_groups _ _ hs.nonempty hs.wf]; rfl
+  have hnd : (keys gs.flatten).Nodup := by
+    have : (keys gs.flatten).Perm (keys s.cache) := List.Perm.map _ hperm
+    exact this.nodup_iff.mpr hex.nodup
+  have hcache : (gs.flatten.foldl loadInsert (fresh file m)).cache = gs.flatten := by
+    rw [foldl_loadInsert_nodup _ _ (by simpa [fresh, keys] using hnd)]; simp [fresh]
+  have hex' : Exact (gs.flatten.foldl loadInsert (fresh file m)) := by
+    have : Exact (loadNew H file m).1 := exact_loadNew H file m
+    rw [hload] at this; exact this
+  have htot := totals_perm hperm
+  rw [hload]
+  refine ⟨rfl, ?_, ?_, ?_⟩
+  · intro k
+    simp only [hcache]
+    cases hf : find s.cache k with
+    | none =>
+      apply find_none_iff.mpr
+      intro hmem
+      have : k ∈ keys s.cache := (List.Perm.map _ hperm).mem_iff.mp hmem
+      exact (find_none_iff.mp hf) this
+    | some e =>
+      exact mem_find_of_nodup hnd (hperm.mem_iff.mpr (find_some_mem hf))
+  · show (gs.flatten.foldl loadInsert (fresh file m)).sumSize = s.sumSize
+    rw [hex'.size, hcache, htot.1, hex.size]
+  · show (gs.flatten.foldl loadInsert (fresh file m)).sumTS = s.sumTS
+    rw [hex'.ts, hcache, htot.2, hex.ts]
+
+/-! ## Save writes an encoding -/
+
+theorem encodeAll_snoc (H : Bytes → Bytes) (m : Nat) (prev : Bytes) (xs : List Bytes) (b : Bytes) :
+    encodeAll H m prev (xs ++ [b]) = encodeAll H m prev xs ++ encChunk H m (chain H m prev xs) b ∧
+    chain H m prev (xs ++ [b]) = H (hashInput m (chain H m prev xs) b) := by
+  induction xs generalizing prev with
+  | nil => simp [encodeAll, chain]
+  | cons x xs ih =>
+    have := ih (H (hashInput m prev x))
+    simp only [List.cons_append, encodeAll, chain, this.1, this.2, List.append_assoc]
+    exact ⟨trivial, trivial⟩
+
+theorem writeAt_take (f a d : Bytes) (off : Nat) (h1 : f.take off = a) (h2 : a.length = off) :
+    (writeAt f off d).take (off + d.length) = a ++ d := by
+  have hle : off ≤ f.length := by
+    have := congrArg List.length h1
+    rw [List.length_take, h2] at this; omega
+  unfold writeAt
+  have : off - f.length = 0 := by omega
+  simp only [this, List.replicate_zero, List.append_nil, h1]
+  rw [← List.append_assoc]
+  exact List.take_left' (by simp [h2])
+
+/-- the writer is between two elements: `done` groups are on disk (a well-formed file prefix), `cur` is pending -/
+structure WInv (H : Bytes → Bytes) (done : List Cache) (cur : Cache) (st : Chunked.St) : Prop where
+  magic : st.magic = magicMappings
+  noErr : st.writeErr = false
+  off : st.offset = (encodeAll H magicMappings zeroHash (done.map encGroup)).length
+  file : st.file.take st.offset = encodeAll H magicMappings zeroHash (done.map encGroup)
+  hash : st.hash = chain H magicMappings zeroHash (done.map encGroup)
+  pending : st.pending = encGroup cur
+  doneOK : ∀ g ∈ done, g ≠ [] ∧ (encGroup g).length ≤ chunkSize
+
+theorem winv_flush {H : Bytes → Bytes} (hH : ∀ x, (H x).length = 16) {done : List Cache} {cur : Cache} {st : Chunked.St}
+    (h : WInv H done cur st) (hne : cur ≠ []) (hsz : (encGroup cur).length ≤ chunkSize) :
+    WInv H (done ++ [cur]) [] (finishChunk H false st).1 := by
+  have hp : st.pending.isEmpty = false := by rw [h.pending]; exact encGroup_ne_nil hne
+  have hsn := encodeAll_snoc H magicMappings zeroHash (done.map encGroup) (encGroup cur)
+  have hst : (finishChunk H false st).1 =
+      { st with file := writeAt st.file st.offset (encChunk H st.magic st.hash st.pending),
+                hash := H (hashInput st.magic st.hash st.pending),
+                offset := st.offset + (headerSize + st.pending.length + hashSize), pending := [] } := by
+    unfold finishChunk
+    simp [hp, h.noErr]
+  rw [hst]
+  have hcl := encChunk_length H st.magic st.hash st.pending hH
+  have key : encChunk H st.magic st.hash st.pending
+      = encChunk H magicMappings (chain H magicMappings zeroHash (done.map encGroup)) (encGroup cur) := by
+    rw [h.magic, h.hash, h.pending]
+  refine ⟨h.magic, h.noErr, ?_, ?_, ?_, by simp [encGroup], ?_⟩
+  · simp only [List.map_append, List.map_cons, List.map_nil]
+    rw [hsn.1, List.length_append, ← h.off, ← key, hcl, headerSize_val, hashSize_val]
+  · simp only [List.map_append, List.map_cons, List.map_nil]
+    rw [hsn.1, ← key]
+    have := writeAt_take st.file _ (encChunk H st.magic st.hash st.pending) st.offset h.file h.off.symm
+    rw [hcl] at this
+    rw [headerSize_val, hashSize_val]; exact this
+  · simp only [List.map_append, List.map_cons, List.map_nil]
+    rw [hsn.2, h.magic, h.hash, h.pending]
+  · intro g hg
+    rcases List.mem_append.mp hg with hg | hg
+    · exact h.doneOK g hg
+    · simp at hg; subst hg; exact ⟨hne, hsz⟩
+
+theorem halfChunk_val : halfChunk = 524288 := rfl
+
+theorem winv_item {H : Bytes → Bytes} (hH : ∀ x, (H x).length = 16) {done : List Cache} {cur : Cache} {st : Chunked.St}
+    (h : WInv H done cur st) (hb : (encGroup cur).length < halfChunk) (it : Bytes × Entry)
+    (hit : (encItem it).length ≤ halfChunk) :
+    ∃ done' cur', WInv H done' cur' (finishItem H false (encItem it) st).1 ∧ (encGroup cur').length < halfChunk ∧
+      done'.flatten ++ cur' = done.flatten ++ cur ++ [it] := by
+  have eg : encGroup (cur ++ [it]) = encGroup cur ++ encItem it := by simp [encGroup]
+  have h1 : WInv H done (cur ++ [it]) { st with pending := st.pending ++ encItem it } :=
+    ⟨h.magic, h.noErr, h.off, h.file, h.hash, by simp only; rw [h.pending, eg], h.doneOK⟩
+  unfold finishItem
+  simp only
+  by_cases hbel : belowHalf { st with pending := st.pending ++ encItem it } = true
+  · simp only [hbel, if_true]
+    refine ⟨done, cur ++ [it], h1, ?_, by simp⟩
+    simp only [belowHalf, decide_eq_true_eq] at hbel
+    rw [eg, ← h.pending]; simpa using hbel
+  · simp only [hbel, Bool.false_eq_true, if_false]
+    have hlen : (encGroup (cur ++ [it])).length ≤ chunkSize := by
+      rw [eg, List.length_append, chunkSize_val]; rw [halfChunk_val] at hb hit; omega
+    have hof : overFull { st with pending := st.pending ++ encItem it } = false := by
+      simp only [overFull, decide_eq_false_iff_not, Nat.not_lt]
+      rw [h.pending, ← eg]; simpa using hlen
+    simp only [hof, Bool.false_eq_true, if_false]
+    refine ⟨done ++ [cur ++ [it]], [], winv_flush hH h1 (by simp) hlen, by simp [encGroup, halfChunk_val], by simp⟩
+
+theorem winv_items {H : Bytes → Bytes} (hH : ∀ x, (H x).length = 16) (items : Cache) {done : List Cache} {cur : Cache}
+    {st : Chunked.St} (h : WInv H done cur st) (hb : (encGroup cur).length < halfChunk)
+    (hit : ∀ it ∈ items, (encItem it).length ≤ halfChunk) :
+    ∃ done' cur', WInv H done' cur' (writeItems H st items) ∧ (encGroup cur').length < halfChunk ∧
+      done'.flatten ++ cur' = done.flatten ++ cur ++ items := by
+  induction items generalizing done cur st with
+  | nil => exact ⟨done, cur, h, hb, by simp⟩
+  | cons it items ih =>
+    obtain ⟨d1, c1, h1, hb1, he1⟩ := winv_item hH h hb it (hit it (by simp))
+    obtain ⟨d2, c2, h2, hb2, he2⟩ := ih h1 hb1 (fun x hx => hit x (List.mem_cons_of_mem _ hx))
+    exact ⟨d2, c2, h2, hb2, by rw [he2, he1]; simp⟩
+
+theorem winv_finish {H : Bytes → Bytes} (hH : ∀ x, (H x).length = 16) {done : List Cache} {cur : Cache} {st : Chunked.St}
+    (h : WInv H done cur st) (hb : (encGroup cur).length < halfChunk) :
+    ∃ gs : List Cache, gs.flatten = done.flatten ++ cur ∧
+      (finishWrite H false st).1.file = encodeAll H magicMappings zeroHash (gs.map encGroup) ∧
+      ∀ g ∈ gs, g ≠ [] ∧ (encGroup g).length ≤ chunkSize := by
+  by_cases hc : cur = []
+  · subst hc
+    have hp : st.pending.isEmpty = true := by rw [h.pending]; rfl
+    refine ⟨done, by simp, ?_, h.doneOK⟩
+    unfold finishWrite finishChunk
+    simp [hp, h.file]
+  · have hsz : (encGroup cur).length ≤ chunkSize := by rw [chunkSize_val]; rw [halfChunk_val] at hb; omega
+    have hf := winv_flush hH h hc hsz
+    have hp : st.pending.isEmpty = false := by rw [h.pending]; exact encGroup_ne_nil hc
+    refine ⟨done ++ [cur], by simp, ?_, hf.doneOK⟩
+    have he : (finishChunk H false st).2 = .none := by
+      unfold finishChunk; simp [hp, h.noErr]
+    unfold finishWrite
+    simp only [he]
+    exact hf.file
+
+/-- C21 (Save): what `Save` leaves in the file is a well-formed chunk file whose chunk bodies are the encodings of the
+    elements of `order`, in that order, split into non-empty groups each smaller than the chunk limit (the split is
+    where FinishItem saw half a chunk filled). -/
+theorem save_writes_encoding {H : Bytes → Bytes} (hH : ∀ x, (H x).length = 16) (s : St) (order : Cache)
+    (hd : dirty s = true) (hwf : ∀ it ∈ order, WFItem it) (hit : ∀ it ∈ order, (encItem it).length ≤ halfChunk) :
+    ∃ gs : List Cache, gs.flatten = order ∧ SavedAs H (save H s order).1.store.file gs := by
+  have h0 : WInv H [] [] (startWrite magicMappings (resetToStart s.store)) :=
+    ⟨rfl, rfl, by simp [startWrite, resetToStart, encodeAll], by simp [startWrite, resetToStart, encodeAll],
+      by simp [startWrite, resetToStart, chain], by simp [startWrite, encGroup], by simp⟩
+  obtain ⟨d1, c1, h1, hb1, he1⟩ := winv_items hH order h0 (by simp [encGroup, halfChunk_val]) hit
+  obtain ⟨gs, hg1, hg2, hg3⟩ := winv_finish hH h1 hb1
+  refine ⟨gs, by rw [hg1, he1]; simp, hH, ?_, fun g hg => (hg3 g hg).1, ?_, fun g hg => (hg3 g hg).2⟩
+  · unfold save; simp only [hd, Bool.not_true, Bool.false_eq_true, if_false]; exact hg2
+  · intro g hg it hi
+    apply hwf
+    have : it ∈ gs.flatten := List.mem_flatten.mpr ⟨g, hg, hi⟩
+    rw [hg1, he1] at this; simpa using this
+
+/-- C21 (save, then restart): the headline — save a cache with exact accounting in ANY write order that enumerates
+    the map, restart from the file: no load error, the same mapping, the same sums. -/
+theorem save_then_reload_same {H : Bytes → Bytes} (hH : ∀ x, (H x).length = 16) (s : St) (order : Cache) (m : Int)
+    (hex : Exact s) (hd : dirty s = true) (hperm : order.Perm s.cache)
+    (hwf : ∀ it ∈ s.cache, WFItem it) (hit : ∀ it ∈ s.cache, (encItem it).length ≤ halfChunk) :
+    (loadNew H (save H s order).1.store.file m).2 = none ∧
+    (∀ k, find (loadNew H (save H s order).1.store.file m).1.cache k = find s.cache k) ∧
+    (loadNew H (save H s order).1.store.file m).1.sumSize = s.sumSize ∧
+    (loadNew H (save H s order).1.store.file m).1.sumTS = s.sumTS := by
+  obtain ⟨gs, hg, hs⟩ := save_writes_encoding hH s order hd
+    (fun it hi => hwf it (hperm.mem_iff.mp hi)) (fun it hi => hit it (hperm.mem_iff.mp hi))
+  exact reload_same_contents s hex hs (by rw [hg]; exact hperm) m
+
+/-- C21 (save, then restart from a truncated file): only entries that were in the cache at save time, whole. -/
+theorem save_then_truncated_reload_subset {H : Bytes → Bytes} (hH : ∀ x, (H x).length = 16) (s : St) (order : Cache) (n : Nat) (m : Int)
+    (hd : dirty s = true) (hperm : order.Perm s.cache)
+    (hwf : ∀ it ∈ s.cache, WFItem it) (hit : ∀ it ∈ s.cache, (encItem it).length ≤ halfChunk) :
+    ∀ p ∈ (loadNew H ((save H s order).1.store.file.take n) m).1.cache, p ∈ s.cache := by
+  obtain ⟨gs, hg, hs⟩ := save_writes_encoding hH s order hd
+    (fun it hi => hwf it (hperm.mem_iff.mp hi)) (fun it hi => hit it (hperm.mem_iff.mp hi))
+  obtain ⟨k, _, h1, _⟩ := load_truncated hs n m
+  rw [h1]
+  have : ∀ (items : Cache) (st : St), (∀ q ∈ st.cache, q ∈ s.cache) → (∀ q ∈ items, q ∈ s.cache) →
+      ∀ q ∈ (items.foldl loadInsert st).cache, q ∈ s.cache := by
+    intro items
+    induction items with
+    | nil => intro st h1 _; exact h1
+    | cons it items ih =>
+      intro st h1 h2
+      apply ih
+      · intro q hq
+        unfold loadInsert at hq
+        split at hq
+        · exact h1 q hq
+        · rcases mem_put hq with hq | hq
+          · subst hq; exact h2 _ (by simp)
+          · exact h1 q hq
+      · exact fun q hq => h2 q (List.mem_cons_of_mem _ hq)
+  apply this
+  · intro q hq; simp [fresh] at hq
+  · intro q hq
+    obtain ⟨g, hg', hq'⟩ := List.mem_flatten.mp hq
+    have : q ∈ gs.flatten := List.mem_flatten.mpr ⟨g, List.mem_of_mem_take hg', hq'⟩
+    rw [hg] at this; exact hperm.mem_iff.mp this
+
+
+
+/-! ## the regenerated facts the models rely on -/
+
+/-- `elementSizeMem` of the model agrees with the compiled Go function on the sampled lengths (regenerated on every run) -/
+theorem gen_elementSizeMem_samples :
+    ∀ p ∈ SH.Gen.C21.elementSizeMemSamples, elementSize (List.replicate p.1 0) = (p.2 : Int) := by decide
+
+/-- `tlString` has the length of `basictl.StringWrite` on the sampled lengths (tiny / medium boundary, padding) -/
+theorem gen_tlString_samples :
+    ∀ p ∈ SH.Gen.C21.tlStringLenSamples, (tlString (List.replicate p.1 0)).length = p.2 := by decide
+
 /-! ## witnesses and non-vacuity -/
 
 /-- a toy 16-byte "hash": the first 16 bytes of the input, zero padded (the theorems hold for every H) -/
@@ -1111,6 +1641,44 @@ example : (run toyH .fixed (init 66 0) [.add 10 [([97], 1)] [], .add 11 [([98], 
 /-- markers and empty strings are filtered -/
 example : (addValues .fixed (init 1000 0) 10 [([97], 0), ([98], -1), ([99], -2), ([], 5), ([100], 7)] []).cache
     = [([100], { val := 7, ts := 10 })] := by decide
+
+
+/-- discharges `ReloadsGood` for a restart from the file just saved, cut at any offset -/
+theorem restart_after_save_good {Q : Bytes → Int → Prop} {H : Bytes → Bytes} (hH : ∀ x, (H x).length = 16) (s : St)
+    (order : Cache) (n : Nat) (m : Int) (hq : AllGood Q s) (hd : dirty s = true) (hperm : order.Perm s.cache)
+    (hwf : ∀ it ∈ s.cache, WFItem it) (hit : ∀ it ∈ s.cache, (encItem it).length ≤ halfChunk) :
+    AllGood Q (loadNew H ((save H s order).1.store.file.take n) m).1 :=
+  fun p hp => hq p (save_then_truncated_reload_subset hH s order n m hd hperm hwf hit p hp)
+
+/-- a concrete cache for the hypotheses of the save / restart theorems -/
+def twoState : St := addValues .fixed (init 1000 0) 10 [([97], 1), ([98, 99], -7)] []
+
+theorem twoState_cache : twoState.cache = [([97], { val := 1, ts := 10 }), ([98, 99], { val := -7, ts := 10 })] := by decide
+
+theorem twoState_wf : ∀ it ∈ twoState.cache, WFItem it := by
+  intro it hi
+  rw [twoState_cache] at hi
+  simp only [List.mem_cons, List.not_mem_nil, or_false] at hi
+  rcases hi with rfl | rfl <;> exact ⟨by decide, by decide, by decide, by decide⟩
+
+theorem twoState_small : ∀ it ∈ twoState.cache, (encItem it).length ≤ halfChunk := by
+  intro it hi
+  rw [twoState_cache] at hi
+  simp only [List.mem_cons, List.not_mem_nil, or_false] at hi
+  rcases hi with rfl | rfl <;> decide
+
+/-- non-vacuity of `save_then_reload_same`: all hypotheses hold for a concrete dirty two-element cache and the toy hash -/
+example : (∀ k, find (loadNew toyH (save toyH twoState twoState.cache).1.store.file 1000).1.cache k = find twoState.cache k) :=
+  (save_then_reload_same toy_params.hlen twoState twoState.cache 1000
+    (exact_addValues _ _ _ _ (exact_empty _ _ _)) (by decide)
+    (List.Perm.refl _) twoState_wf twoState_small).2.1
+
+/-- the saved file of that cache: one 24-byte body, 48 bytes in all -/
+example : (save toyH twoState twoState.cache).1.store.file.length = 48 := by decide
+
+/-- `HashCoincidence` is not an empty escape clause: with a hash that ignores its input every damaged chunk passes -/
+example : HashCoincidence (fun _ => zeroHash) 7 [[1]] :=
+  ⟨0, by decide, le 4 7 ++ le 4 1 ++ [2] ++ zeroHash, by decide, by decide⟩
 
 
 end SH.C21
